@@ -265,7 +265,7 @@ def run_C04(tier, seed):
     for profile in ("debug", "release"):
         b = B.build(profile)
         total = plan(b, "C04", tier)
-        cases, errors = run_batch(b, "C04", tier, seed, profile, total, timeout=60, extra_args=["--case-timeout", "20"])
+        cases, errors = run_batch(b, "C04", tier, seed, profile, total, timeout=120, extra_args=["--case-timeout", "45"])
         rep.add_cases(cases, on_crash="held")
         rep.errors += errors
         rep.obs_inc(f"damage_cases_run.{profile}", len(cases))
@@ -293,7 +293,7 @@ def run_C05(tier, seed):
     for profile in ("debug", "release"):
         b = B.build(profile)
         total = plan(b, "C05", tier)
-        cases, errors = run_batch(b, "C05", tier, seed, profile, total, timeout=60, extra_args=["--case-timeout", "20"])
+        cases, errors = run_batch(b, "C05", tier, seed, profile, total, timeout=120, extra_args=["--case-timeout", "45"])
         rep.add_cases(cases, on_crash="held")
         rep.errors += errors
         rep.obs_inc(f"damage_cases_run.{profile}", len(cases))
@@ -315,12 +315,12 @@ def run_C06(tier, seed):
     for profile in ("debug", "release"):
         b = B.build(profile)
         total = plan(b, "C06", tier)
-        cases, errors = run_batch(b, "C06", tier, seed, profile, total, timeout=90, extra_args=["--case-timeout", "15"])
+        cases, errors = run_batch(b, "C06", tier, seed, profile, total, timeout=120, extra_args=["--case-timeout", "45"])
 
         def confirm(c, b=b):
             d = c.desc or {}
             key = (c.profile, d.get("specimen"), d.get("structure"), (d.get("damage") or {}).get("op"))
-            return hang.confirm(b, "C06", c, key, budget=40 if tier == "quick" else 90, extra_sig=lab_crash_sig(c))
+            return hang.confirm(b, "C06", c, key, budget=90 if tier == "quick" else 150, extra_sig=lab_crash_sig(c))
 
         rep.add_cases(cases, crash_sig=lab_crash_sig, hang_confirm=confirm)
         rep.errors += errors
